@@ -89,6 +89,9 @@ func mineChild(data []byte, target uint64, workers int, prior interface{}, conc 
 	if len(conc) > 0 && conc[0] != nil {
 		sp["conc"] = conc[0]
 	}
+	if len(conc) > 1 && conc[1] != nil {
+		sp["cancel_ms"] = conc[1]
+	}
 	spec, _ := json.Marshal(sp)
 	cmd := exec.Command(os.Args[0], "-test.run", "^TestVerifChild$", "-test.count=1")
 	cmd.Env = append(os.Environ(), "VERIF_CHILD_IN="+string(spec))
@@ -139,6 +142,12 @@ func TestVerifChild(t *testing.T) {
 			w.Mine(context.Background(), vBytes(x), target)
 		}
 	}
+	ctxMain := context.Background()
+	if ms, ok := spec["cancel_ms"].(float64); ok { // the caller's context ends after a while (a timeout)
+		var cancelMain context.CancelFunc
+		ctxMain, cancelMain = context.WithTimeout(context.Background(), time.Duration(ms*float64(time.Millisecond)))
+		defer cancelMain()
+	}
 	// other Mine calls on the SAME Worker (other data, same target score) may run at the same time
 	stop := make(chan struct{})
 	var bg sync.WaitGroup
@@ -159,7 +168,7 @@ func TestVerifChild(t *testing.T) {
 			}()
 		}
 	}
-	nonce, err := w.Mine(context.Background(), data, target)
+	nonce, err := w.Mine(ctxMain, data, target)
 	if spec["conc"] != nil { // repeat while the others are busy; the first call that misses the target is the one reported
 		for rep := 0; rep < 40 && err == nil; rep++ {
 			var nb [8]byte
@@ -231,7 +240,7 @@ func runF(op string, in M) (M, M, M) {
 		data := vBytes(in["data"])
 		target := vFromLimbs(in["target"]).Uint64()
 		workers := vIntOf(in["workers"])
-		out := mineChild(data, target, workers, in["prior"], in["conc"])
+		out := mineChild(data, target, workers, in["prior"], in["conc"], in["cancel_ms"])
 		f := digestFacts(data)
 		f["blocks"], f["audit"] = []M{}, []M{}
 		if out["ok"] == true && workers == 1 && target > 0 {
@@ -429,6 +438,9 @@ func TestVerifDriver(t *testing.T) {
 			mineIn["prior"] = [][]int{vInts(make([]byte, len(data)/4)), vInts(make([]byte, 3*len(data)+40))}
 		}
 		emit("pow2.Mine", mineIn)
+		if k%5 == 2 { // a search that takes long, under a context that ends after a few milliseconds: a nonce or the cancellation error
+			emit("pow2.Mine", M{"data": vInts(data), "target": vLimbsU64(43046721 / uint64(ln)), "workers": 2 + k%2, "cancel_ms": 1 + k%4})
+		}
 		if k%4 == 1 { // the same Worker mines other data at the same time
 			o1, o2 := make([]byte, len(data)), make([]byte, len(data)+3)
 			r.Read(o1)
